@@ -17,9 +17,11 @@
 //     (held = handed out and its Release / finish not yet invoked)
 //   - the generations of a group are a contiguous run of the store's generation order: no generation of
 //     the store lies between the group's oldest and newest generation without being part of the group
-//     (C05:non-contiguous), and a generation is taken with all of its files         (C05:partial-generation)
+//     (C05:non-contiguous-gap-in-use when a left-out generation is held by another group, else
+//     C05:non-contiguous-gap-skipped), and a generation is taken with all of its files (C05:partial-generation)
 //   - at quiescent points the planner's in-use count equals the number of held files (C05:in-use-leak) and
 //     when nothing is held a plan is never refused for "files in use"                (C05:release-lost)
+//
 // Groups naming files that no longer exist (planned from a FindGenerations snapshot that a finished compaction
 // has overtaken, possible in the real engine too) are an observation (stale-plan), not a C05 violation.
 package plan
@@ -43,12 +45,12 @@ import (
 // ---- tables (index 0 = boring)
 
 var sizeKinds = []uint32{
-	1 << 20,                      // small
-	100 << 20,                    // medium
-	600 << 20,                    // four of them cross 2 GB
-	tsdb.MaxTSMFileSize - 1,      // just under
-	tsdb.MaxTSMFileSize,          // exactly
-	tsdb.MaxTSMFileSize + 1<<20,  // over
+	1 << 20,                     // small
+	100 << 20,                   // medium
+	600 << 20,                   // four of them cross 2 GB
+	tsdb.MaxTSMFileSize - 1,     // just under
+	tsdb.MaxTSMFileSize,         // exactly
+	tsdb.MaxTSMFileSize + 1<<20, // over
 }
 
 var blockKinds = []int{10, 999, tsdb.DefaultMaxPointsPerBlock, tsdb.DefaultMaxPointsPerBlock + 1,
@@ -271,16 +273,16 @@ type heldGroup struct {
 }
 
 type world struct {
-	r        *hx.Run
-	fs       *fakeStore
-	p        *tsm1.DefaultPlanner
-	held     []*heldGroup
-	nextID   int
-	inflight int // planning calls in flight (all callers)
+	r         *hx.Run
+	fs        *fakeStore
+	p         *tsm1.DefaultPlanner
+	held      []*heldGroup
+	nextID    int
+	inflight  int // planning calls in flight (all callers)
 	releasing int // Release calls in flight
-	events   int // bumped whenever a planning call or a Release starts or ends
-	handed   int
-	clients  int
+	events    int // bumped whenever a planning call or a Release starts or ends
+	handed    int
+	clients   int
 }
 
 func short(files []string) string {
